@@ -515,7 +515,7 @@ func init() {
 	register("C05", &core.Rule{ID: "C05.4", Title: "exported request never aliases the pending buffer", Mod: core.ModCBP, Floor: 3, Run: c05_4})
 	register("C05", &core.Rule{ID: "C05.5", Title: "item-count unit agreement", Mod: core.ModCBP, Floor: 4, Run: c05_5})
 	register("C05", &core.Rule{ID: "C05.6", Title: "shutdown drains the queue and flushes", Mod: core.ModCBP, Floor: 3, Run: c05_6})
-	register("C05", &core.Rule{ID: "C05.7", Title: "no received request is discarded", Mod: core.ModCBP, Floor: 1, Run: c05_7})
+	register("C05", &core.Rule{ID: "C05.7", Title: "no received request is discarded (the loop hands it to the item handler, which adds it to the batch)", Mod: core.ModCBP, Floor: 2, Run: c05_7})
 	register("C05", &core.Rule{ID: "C05.8", Title: "split size, counter decrement and reported size agree", Mod: core.ModCBP, Floor: 3, Run: c05_8})
 	register("C05", &core.Rule{ID: "C05.9", Title: "counter follows content in add", Mod: core.ModCBP, Floor: 3, Run: c05_9})
 	register("C06", &core.Rule{ID: "C06.10", Title: "add() appends the incoming request behind the pending items (the FIFO order the apportioning of responses relies on)", Mod: core.ModCBP, Floor: 3, Run: c05_9})
@@ -1117,6 +1117,31 @@ func c05_7(c *core.Ctx, p *core.Prog) {
 		}
 	}
 	c.Check(!bad, "item-arm", p.Pos(first.Pos()), core.FuncName(fn), "every request received from the queue reaches the item handler unless it carries no data", "a request received from the queue can be dropped without reaching the item handler although it carries data")
+	// inside the item handler: every path to a return adds the request's data to the batch (unless it carries none)
+	pf := m.processFn
+	isAdd := func(i ssa.Instruction) bool {
+		ci, ok := i.(ssa.CallInstruction)
+		return ok && ci.Common().IsInvoke() && ci.Common().Method == a.mAdd
+	}
+	cut2 := map[core.Edge]bool{}
+	for _, b := range pf.Blocks {
+		iff := core.IfOf(b)
+		if iff == nil {
+			continue
+		}
+		cmp, ok := iff.Cond.(*ssa.BinOp)
+		if !ok || (cmp.Op != token.EQL && cmp.Op != token.NEQ) || !core.IsNilConst(cmp.Y) || !isAny(cmp.X.Type()) {
+			continue
+		}
+		if cmp.Op == token.EQL {
+			cut2[core.Edge{From: b, To: b.Succs[0]}] = true
+		} else {
+			cut2[core.Edge{From: b, To: b.Succs[1]}] = true
+		}
+	}
+	skips, _ := (core.PathQuery{Fn: pf, Avoid: isAdd, CutEdges: cut2, ExitReturnOnly: true}).Exists()
+	c.Check(!skips, "handler|adds", p.Pos(pf.Pos()), core.FuncName(pf), "the item handler adds every request's data to the batch",
+		"the item handler can return without adding the request's data to the batch (e.g. when the caller's context has already ended): with early_return the caller was told success when it enqueued, so an accepted request is dropped — also by the shutdown drain")
 }
 
 // ---------------- C05.10 ----------------
